@@ -15,7 +15,7 @@ import tempfile
 import json as _json
 
 from .. import seeds, shrink
-from ..pool import HarnessError, HeteroPool, Pool, PYTHON, unwrap
+from ..pool import HarnessError, HeteroPool, Pool, PYTHON, Skips, unwrap
 from ..workload import gen_workload
 
 PROP = "C06"
@@ -111,18 +111,28 @@ def worker_configs(seed, n):
     return cfgs
 
 
-def real_sweep(cfgs, workloads, timeout=60):
+def real_sweep(cfgs, workloads, timeout=45, skips=None):
     """results[w][j] (stripped outcomes) for every config w and workload j."""
     with HeteroPool([c[0] for c in cfgs], instrument=False) as hp:
         res = hp.map_all("checks.c06:job_real",
                          lambda wi, j: {"models": workloads[j]["models"], "options": workloads[j]["options"],
                                         "addr_seed": cfgs[wi][1], "addr_mode": cfgs[wi][2]},
                          len(workloads), timeout=timeout)
-    return [[strip(unwrap(r)) for r in row] for row in res]
+    skips = skips if skips is not None else Skips(limit=max(5, len(workloads) // 100))
+    out = []
+    for row in res:
+        out.append([])
+        for r in row:
+            v = skips.take(r)
+            out[-1].append(strip(v) if v is not None else None)
+    return out
 
 
 def disagreement(column):
-    """column: outcomes of all workers for one workload -> (w1, w2, structure) of a disagreeing pair or None."""
+    """column: outcomes of all workers for one workload -> (w1, w2, structure) of a disagreeing pair or None.
+    A workload for which some worker ran into the job time limit is not judged."""
+    if any(c is None for c in column):
+        return None
     for s in STRUCTS:
         for w in range(1, len(column)):
             if column[w].get(s) != column[0].get(s):
@@ -251,11 +261,14 @@ def run(ctx):
             for k in range(k_sched):
                 jobs.append({"models": w["models"], "options": w["options"], "structures": STRUCTS,
                              "sched": {"mode": "random", "seed": seeds.derive_int(ctx.seed, PROP, "sched", j, k)}})
-        res = [unwrap(r) for r in pool.map("pipeline:job_full", jobs)]
+        skips_a = Skips(limit=max(5, len(jobs) // 200))
+        res = [skips_a.take(r) for r in pool.map("pipeline:job_full", jobs, timeout=45)]
         evaluations += len(jobs) * len(STRUCTS)
         unorderable = 0
         for j, w in enumerate(workloads):
             block = res[j * (k_sched + 1):(j + 1) * (k_sched + 1)]
+            if any(b is None for b in block) or any(real[wi][j] is None for wi in range(n_real)):
+                continue  # a job of this workload ran into the time limit: not judged
             ident = block[0]
             pts = sum(ident[s + "#sched"]["points"] for s in STRUCTS)
             points_total += pts
@@ -488,7 +501,8 @@ def cli_layer(ctx, rep, workloads, n):
 
         def one(task):
             j, hs, argv = task
-            env = dict(os.environ, PYTHONHASHSEED=str(hs), PYTHONPATH=loader.repo_dir(), PYTHONIOENCODING="utf-8")
+            env = dict(os.environ, PYTHONHASHSEED=str(0 if hs == "mtime" else hs), PYTHONPATH=loader.repo_dir(),
+                       PYTHONIOENCODING="utf-8")
             env.pop("TRAVIS", None)
             env.pop("FORCE_COVERAGE", None)
             p = subprocess.run([PYTHON, "-m", "json_to_models", *argv], capture_output=True, env=env,
@@ -497,8 +511,29 @@ def cli_layer(ctx, rep, workloads, n):
 
         with ThreadPoolExecutor(max_workers=max(2, ctx.jobs)) as ex:
             results = list(ex.map(one, tasks))
+        # second phase: same files, names and contents, but modification times shuffled (environment state that is
+        # not input); hash seed 0 again - must equal the first run with hash seed 0
+        touched = []
+        for j, fm in file_maps.items():
+            rels = sorted(fm)
+            if len(rels) < 2:
+                continue
+            order = list(rels)
+            rng.shuffle(order)
+            for k, rel in enumerate(order):
+                t = 1_600_000_000 + 1000 * k
+                os.utime(os.path.join(scratch, rel), (t, t))
+            touched.append(j)
+        first_task = {}
+        for t in tasks:
+            first_task.setdefault(t[0], t)
+        with ThreadPoolExecutor(max_workers=max(2, ctx.jobs)) as ex:
+            results2 = list(ex.map(one, [(j, "mtime", first_task[j][2]) for j in touched]))
+
         by = {}
         for j, hs, argv, rc, norm in results:
+            by.setdefault(j, []).append((hs, argv, rc, norm))
+        for j, hs, argv, rc, norm in results2:
             by.setdefault(j, []).append((hs, argv, rc, norm))
         for j, outs in sorted(by.items()):
             base = outs[0]
@@ -508,10 +543,11 @@ def cli_layer(ctx, rep, workloads, n):
                         "kind": "cli-subprocess", "files": file_maps[j], "scratch": scratch,
                         "argv": [a.replace(scratch, "{DIR}") for a in base[1]], "hashseeds": [base[0], o[0]],
                         "clause": "CLI stdout identical except the timestamp line",
-                    }, f"real CLI subprocess differs between PYTHONHASHSEED={base[0]} and {o[0]}: "
+                    }, ("real CLI subprocess output changes when only the modification times of the input files change: "
+                        if o[0] == "mtime" else f"real CLI subprocess differs between PYTHONHASHSEED={base[0]} and {o[0]}: ")
                        + first_diff({"text": base[3][1]}, {"text": o[3][1]}))
                     return len(results)
-        return len(results)
+        return len(results) + len(results2)
     finally:
         shutil.rmtree(scratch, ignore_errors=True)
 
@@ -580,7 +616,13 @@ def replay(ctx, payload):
             for _ in range(3):
                 outs = []
                 for hs in payload["hashseeds"]:
-                    env = dict(os.environ, PYTHONHASHSEED=str(hs), PYTHONPATH=loader.repo_dir(), PYTHONIOENCODING="utf-8")
+                    if hs == "mtime":
+                        rels = sorted(payload["files"])
+                        random.Random(len(outs) + 7).shuffle(rels)
+                        for k, rel in enumerate(rels):
+                            os.utime(os.path.join(scratch, rel), (1_600_000_000 + 1000 * k,) * 2)
+                    env = dict(os.environ, PYTHONHASHSEED=str(0 if hs == "mtime" else hs), PYTHONPATH=loader.repo_dir(),
+                               PYTHONIOENCODING="utf-8")
                     p = subprocess.run([PYTHON, "-m", "json_to_models", *argv], capture_output=True, env=env, timeout=180, cwd=scratch)
                     outs.append((p.returncode, normalise_cli(p.stdout.decode("utf-8", "replace"))))
                 if outs[0] != outs[1]:
